@@ -1,2 +1,153 @@
-(* C08 — stub, theorems follow *)
-From AG Require Import Validators.
+(* C08 — built-in input validators accept exactly the values satisfying their
+   predicate.  Only property theorems here: each is closed by [exact], the
+   central statements are pinned by [Check], assumptions are printed.
+   Everything in this file is plain Z / N / list reasoning (no axioms); the
+   link between the integer->double rounding of the model and IEEE-754 as
+   formalised by Flocq is in C08_flocq theorems at the end (Flocq's axioms). *)
+From AG Require Import Validators ValidatorsProofs ValidatorsFlocq.
+Open Scope Z_scope.
+
+(* --- integer value, integer bound: exact on the whole i64 range ---------- *)
+Theorem C08_int_int_maximum_exact : forall x n, in_i64 x ->
+  (run_num OMax (BI n) (NI x) = Accept <-> x <= n).
+Proof. exact int_int_max_iff. Qed.
+Theorem C08_int_int_minimum_exact : forall x n, in_i64 x ->
+  (run_num OMin (BI n) (NI x) = Accept <-> n <= x).
+Proof. exact int_int_min_iff. Qed.
+Theorem C08_int_int_multiple_of_exact : forall x n,
+  in_i64 x -> x <> 0 -> n <> 0 -> ~ (x = I64_MIN /\ n = -1) ->
+  (run_num OMul (BI n) (NI x) = Accept <-> exists k, x = k * n).
+Proof. exact int_int_mul_iff. Qed.
+
+(* --- every numeric validator on every numeric value outside the classes --- *)
+Theorem C08_numeric_exact : forall strict op b x,
+  pair_class2 strict (KNum op b) (ANum x) = 0%N ->
+  run_num op b x = of_bool (spec_num op b x).
+Proof. exact num_exact. Qed.
+
+(* --- strings, items -------------------------------------------------------- *)
+Theorem C08_len_exact : forall op n s,
+  run_len op n s = Accept <->
+  match op with
+  | LMaxLength => byte_len s <= n
+  | LMinLength => n <= byte_len s
+  | LCharsMax => Z.of_nat (length s) <= n
+  | LCharsMin => n <= Z.of_nat (length s)
+  end.
+Proof. exact len_iff. Qed.
+Theorem C08_byte_char_len : forall s, char_len s <= byte_len s <= 4 * char_len s.
+Proof. exact byte_char_len. Qed.
+Theorem C08_byte_len_app : forall s t, byte_len (s ++ t) = byte_len s + byte_len t.
+Proof. exact byte_len_app. Qed.
+Theorem C08_items_exact : forall mx n l,
+  run_items mx n l = Accept <-> if mx then Z.of_nat (length l) <= n else n <= Z.of_nat (length l).
+Proof. exact items_iff. Qed.
+
+(* --- one argument / input field, a whole field, list mode ------------------ *)
+Theorem C08_slot_exact : forall matches strict s,
+  wt_slot s = true -> slot_class strict s = 0%N ->
+  run_slot matches s = of_bool (spec_slot matches s).
+Proof. exact slot_exact. Qed.
+Theorem C08_request_exact : forall matches strict ss,
+  forallb wt_slot ss = true -> req_class strict ss = 0%N ->
+  run_req matches strict ss = of_bool (spec_req matches ss).
+Proof. exact req_exact. Qed.
+Theorem C08_list_mode : forall m strict cfg l,
+  wt_slot (cfg, true, AList l) = true -> slot_class strict (cfg, true, AList l) = 0%N ->
+  (forall k, In k cfg -> is_list_kind k = false) ->
+  (run_slot m (cfg, true, AList l) = Accept <->
+   forall k it, In k cfg -> In it l -> it = ANone \/ spec_kind m k it = true).
+Proof. exact list_mode_iff. Qed.
+Theorem C08_check_sound : forall tbl strict ss code,
+  forallb wt_slot ss = true -> req_class strict ss = 0%N ->
+  check_case (tbl, strict, ss, code) <> 2%N /\
+  (res_of_code code = run_req (lookup tbl) strict ss -> check_case (tbl, strict, ss, code) = 0%N).
+Proof. exact check_sound. Qed.
+
+(* --- known findings: the full statement is false of the faithful model ----- *)
+Theorem C08_u64_wrap_refuted :
+  exists x n, 0 <= x < 2 ^ 64 /\ 0 <= n /\
+    run_num OMax (BI n) (NI x) = Accept /\ spec_num OMax (BI n) (NI x) = false /\
+    run_req no_match false [([KNum OMax (BI n)], false, ANum (NI x))] = Accept /\
+    spec_req no_match [([KNum OMax (BI n)], false, ANum (NI x))] = false /\
+    run_req no_match true [([KNum OMin (BI n)], false, ANum (NI x))] = Reject /\
+    spec_req no_match [([KNum OMin (BI n)], false, ANum (NI x))] = true.
+Proof. exact u64_wrap_refuted. Qed.
+(* ... and it is wrong for every such value and every bound the macro can express *)
+Theorem C08_u64_wrap_always : forall x n,
+  2 ^ 63 <= x < 2 ^ 64 -> 0 <= n < 2 ^ 63 ->
+  run_num OMax (BI n) (NI x) = Accept /\ ~ x <= n /\
+  run_num OMin (BI n) (NI x) = Reject /\ n <= x.
+Proof. exact u64_wrap_always. Qed.
+Theorem C08_float_value_int_bound_refuted :
+  run_num OMax (BI 10) (NF 4622100592565682176) = Accept /\ spec_num OMax (BI 10) (NF 4622100592565682176) = false /\
+  run_num OMin (BI 0) (NF 13826050856027422720) = Accept /\ spec_num OMin (BI 0) (NF 13826050856027422720) = false /\
+  run_num OMul (BI 3) (NF 4619004367821864960) = Accept /\ spec_num OMul (BI 3) (NF 4619004367821864960) = false.
+Proof. exact float_value_int_bound_refuted. Qed.
+Theorem C08_int_value_float_bound_refuted :
+  run_num OMax (BF 4845873199050653696) (NI (2 ^ 53 + 1)) = Accept /\
+  spec_num OMax (BF 4845873199050653696) (NI (2 ^ 53 + 1)) = false /\
+  run_num OMul (BF 4613937818241073152) (NI (2 ^ 53 + 1)) = Reject /\
+  spec_num OMul (BF 4613937818241073152) (NI (2 ^ 53 + 1)) = true.
+Proof. exact int_value_float_bound_refuted. Qed.
+Theorem C08_multiple_of_zero_refuted : forall n,
+  run_num OMul (BI n) (NI 0) = Reject /\ spec_num OMul (BI n) (NI 0) = true.
+Proof. exact multiple_of_zero_refuted. Qed.
+Theorem C08_multiple_of_panic_refuted :
+  run_req no_match false [([KNum OMul (BI 0)], false, ANum (NI 5))] = Panicked /\
+  run_num OMul (BI (-1)) (NI I64_MIN) = Panicked.
+Proof. exact multiple_of_panic_refuted. Qed.
+Theorem C08_multiple_of_bound_zero_panics : forall x, in_i64 x -> x <> 0 ->
+  run_num OMul (BI 0) (NI x) = Panicked.
+Proof. exact multiple_of_bound_zero_panics. Qed.
+Theorem C08_length_measures_differ :
+  run_len LMaxLength 5 [20320; 22909]%N = Reject /\ run_len LCharsMax 5 [20320; 22909]%N = Accept.
+Proof. exact length_measures_differ. Qed.
+
+(* --- non-vacuity ------------------------------------------------------------ *)
+Theorem C08_nonvacuous :
+  forallb wt_slot demo_req = true /\ req_class true demo_req = 0%N /\
+  run_req (fun _ _ => true) true demo_req = Accept /\ spec_req (fun _ _ => true) demo_req = true /\
+  run_req no_match true demo_req = Reject.
+Proof. exact demo_req_ok. Qed.
+
+(* --- the integer -> double conversion of the model is IEEE-754 round-to-nearest-even (Flocq) *)
+Theorem C08_flocq_rne_small : forall z, Z.abs z < 2 ^ 53 -> fl_real (rne z) = flocq_of_Z z.
+Proof. exact flocq_rne_small. Qed.
+Theorem C08_flocq_rne_witnesses : Forall (fun z => fl_same (rne z) (flocq_int_to_f64 z) = true) rne_witnesses.
+Proof. exact flocq_rne_witnesses. Qed.
+
+Check C08_int_int_maximum_exact : forall x n, in_i64 x -> (run_num OMax (BI n) (NI x) = Accept <-> x <= n).
+Check C08_int_int_multiple_of_exact : forall x n,
+  in_i64 x -> x <> 0 -> n <> 0 -> ~ (x = I64_MIN /\ n = -1) ->
+  (run_num OMul (BI n) (NI x) = Accept <-> exists k, x = k * n).
+Check C08_request_exact : forall matches strict ss,
+  forallb wt_slot ss = true -> req_class strict ss = 0%N ->
+  run_req matches strict ss = of_bool (spec_req matches ss).
+Check C08_u64_wrap_always : forall x n,
+  2 ^ 63 <= x < 2 ^ 64 -> 0 <= n < 2 ^ 63 ->
+  run_num OMax (BI n) (NI x) = Accept /\ ~ x <= n /\ run_num OMin (BI n) (NI x) = Reject /\ n <= x.
+
+Print Assumptions C08_int_int_maximum_exact.
+Print Assumptions C08_int_int_minimum_exact.
+Print Assumptions C08_int_int_multiple_of_exact.
+Print Assumptions C08_numeric_exact.
+Print Assumptions C08_len_exact.
+Print Assumptions C08_byte_char_len.
+Print Assumptions C08_byte_len_app.
+Print Assumptions C08_items_exact.
+Print Assumptions C08_slot_exact.
+Print Assumptions C08_request_exact.
+Print Assumptions C08_list_mode.
+Print Assumptions C08_check_sound.
+Print Assumptions C08_u64_wrap_refuted.
+Print Assumptions C08_u64_wrap_always.
+Print Assumptions C08_float_value_int_bound_refuted.
+Print Assumptions C08_int_value_float_bound_refuted.
+Print Assumptions C08_multiple_of_zero_refuted.
+Print Assumptions C08_multiple_of_panic_refuted.
+Print Assumptions C08_multiple_of_bound_zero_panics.
+Print Assumptions C08_length_measures_differ.
+Print Assumptions C08_nonvacuous.
+Print Assumptions C08_flocq_rne_small.
+Print Assumptions C08_flocq_rne_witnesses.
